@@ -93,3 +93,17 @@ def random_replay(g, ob, vals, res):
 def hashheap_replay(g, ob, vals, res):
     src = os.path.join(VERIF, 'replay', 'hashheap_replay.c')
     return scenario_sweep(src, [[seed, 3000] for seed in range(1, 41)], budget_s=90)
+
+
+def demo_replay(*names):
+    """Native replay by self-checking scenario programs (exit 0 = property held)."""
+    def f(g, ob, vals, res):
+        outs = []
+        for n in names:
+            src = os.path.join(VERIF, 'replay', n)
+            rc, out = cvlib.native_run(src, [], timeout=120)
+            outs.append('%s -> exit %s\n%s' % (n, rc, out[-600:]))
+            if rc not in (0, 'timeout', 'build-failed'):
+                return dict(reproduced=True, output='\n'.join(outs), cmd='replay/%s (exit %s)' % (n, rc))
+        return dict(reproduced=False, output='\n'.join(outs), cmd=' '.join(names))
+    return f
